@@ -9,12 +9,16 @@
             `rejected` when falcon returned no IL;
     spec  = post line of the A64 interpreter (`A64.step`) on the raw word from the same state, or
             `unallocated` | `unpredictable:<why>` | `fault:<why>`.
+  When the mirror exists and differs from falcon's IL, four more fields follow:
+    `MIRROR-BTR \t <the mirror's BTR in FIL> \t <runBTR of the mirror> \t <runBTR of falcon's IL>` — the input of the semantic
+    comparison tools/il_equiv.py and of its per-run self-test (props/smt_tie.py, design/06_smt_tie.md).
   Both post lines list the registers of the request's state, in that order, and the bytes of its memory windows.
 -/
 import FalconModel.DriverLoop
 import FalconModel.Lift
 import FalconModel.Isa.A64
 import FalconModel.Isa.A64Lift
+import FalconModel.FilBTR
 open Falcon
 
 def splitOnce (s sep : String) : Option (String × String) :=
@@ -100,10 +104,13 @@ def handle (line : String) : String :=
                   match Fil.btr? x with
                   | some r =>
                     let model := postLine (runBTR r m.toState) watch windows
-                    let mirror := match A64Lift.lift w addr with
-                      | some r' => if A64Lift.btrEq r' r then "MIRROR-SAME " else "MIRROR-DIFF "
-                      | none => if A64Lift.covered w then "MIRROR-DIFF " else ""
-                    mirror ++ model ++ "\t" ++ spec
+                    let (mirror, more) : String × String := match A64Lift.lift w addr with
+                      | some r' =>
+                        if A64Lift.btrEq r' r then ("MIRROR-SAME ", "")
+                        else ("MIRROR-DIFF ", "\tMIRROR-BTR\t" ++ Fil.btrStr r' ++ "\t"
+                                ++ postLine (runBTR r' m.toState) watch windows ++ "\t" ++ model)
+                      | none => if A64Lift.covered w then ("MIRROR-DIFF ", "") else ("", "")
+                    mirror ++ model ++ "\t" ++ spec ++ more
                   | none => "unparsable\t" ++ spec
                 | _ => "unparsable\t" ++ spec
             else if (A64Lift.lift w addr).isSome then "MIRROR-DIFF rejected\t" ++ spec
